@@ -3,6 +3,7 @@ package sim
 import (
 	"fmt"
 	"sort"
+	"strings"
 
 	"github.com/milvus-io/milvus/pkg/mq/msgstream"
 	"google.golang.org/protobuf/proto"
@@ -871,8 +872,29 @@ func (r *RigR) checkDrops(delivered map[string]map[int64]*srcRef, stopped map[in
 	// a collection dropped at the source while the service was down (the catalog lists it as dropped, it still exists
 	// downstream): its drop is owed exactly once after the start
 	for _, c := range sc.Colls {
-		if c.State != "dropped" || !c.Pre || stopped[c.ID] || errEvent {
+		if c.State != "dropped" || !c.Pre || stopped[c.ID] {
 			continue
+		}
+		if errEvent {
+			// an error reported by the reader excuses the missing drop only when something was injected that can explain it
+			// (a refused query / registration, a partition whose downstream id is never learned)
+			explained := false
+			for k, v := range s.Stats {
+				if strings.HasPrefix(k, "fault:") && v > 0 {
+					explained = true
+				}
+			}
+			for _, c2 := range sc.Colls {
+				for _, pt := range c2.Parts {
+					if pt.Late >= 80 {
+						explained = true
+					}
+				}
+			}
+			if explained {
+				continue
+			}
+			s.Probe("error_event_without_injected_fault")
 		}
 		if st := r.opState("start", c.ID); st == nil || !st.done || st.err != nil {
 			continue
